@@ -134,7 +134,7 @@ double PDF_Chi_Square(double x, double dof)
 	if(x <= 0 || dof < 1.0e-6)
 		return 0.0;
 	else
-		return 1.0 / pow(2.0, dof / 2.0) / Gamma(dof / 2.0) * pow(x, dof / 2.0 - 1.0) * exp(-x / 2.0);
+		return exp(-dof / 2.0 * log(2.0) - GammaLn(dof / 2.0) + (dof / 2.0 - 1.0) * log(x) - x / 2.0);
 }
 
 double CDF_Chi_Square(double x, double dof)
@@ -144,7 +144,7 @@ double CDF_Chi_Square(double x, double dof)
 	else if(fabs(dof) < 1e-6)
 		return 1.0;
 	else
-		return 1.0 / Gamma(dof / 2.0) * Lower_Incomplete_Gamma(x / 2.0, dof / 2.0);
+		return GammaP(x / 2.0, dof / 2.0);
 }
 
 double PDF_Chi_Bar_Square(double x, std::vector<double> weights)
